@@ -1043,16 +1043,24 @@ def policy(repo, tier):
                  "parse_comment", "parse_html_declaration", "parse_marked_section", "parse_pi", "set_cdata_mode", "clear_cdata_mode"}
     for m, cls, short in ((h, HCLS, "html_extractor.py"), (e, ECLS, "epub_extractor.py")):
         node = m.classes.get(cls)
-        ok = node is not None and [ast.unparse(b) for b in node.bases] == ["HTMLParser"] and m.imports.get("HTMLParser") == "html.parser.HTMLParser"
+        ok = node is not None and len(node.bases) == 1 and C17_sites.is_library_parser(m, node.bases[0])
         over = sorted(n.name for n in (node.body if node else []) if isinstance(n, ast.FunctionDef) and n.name in callbacks - under)
         P(f"C17/{short}::{cls}/call-site#only-contracted-parser-callbacks-overridden", ok and not over, f"base ok={ok}; overrides outside the contracts: {over}")
         init = m.functions.get(f"{cls}.__init__")
-        sup = [c_ for c_ in _calls(init) if ast.unparse(c_.func) in ("super().__init__", "HTMLParser.__init__", f"super({cls}, self).__init__")] if init else []
+        def base_init(c_):
+            """super().__init__(..) / super(C, self).__init__(..) -> 0 ; <library base>.__init__(self, ..) -> 1 (positional self); else None"""
+            f_ = c_.func
+            if not (isinstance(f_, ast.Attribute) and f_.attr == "__init__"):
+                return None
+            if isinstance(f_.value, ast.Call) and dotted(f_.value.func) == "super":
+                return 0
+            return 1 if C17_sites.is_library_parser(m, f_.value) else None
+        sup = [c_ for c_ in _calls(init) if base_init(c_) is not None] if init else []
         kw = {k.arg: ast.unparse(k.value) for c_ in sup for k in c_.keywords}
         # convert_charrefs defaults to True (Python >= 3.5); no __init__ at all inherits that default
         P(f"C17/{short}::{cls}.__init__/call-site#charrefs-converted-so-text-arrives-only-through-handle_data",
           (init is None or len(sup) == 1) and kw.get("convert_charrefs", "True") == "True"
-          and not any(len(c_.args) > (1 if ast.unparse(c_.func) == "HTMLParser.__init__" else 0) for c_ in sup), f"base __init__ keywords: {kw}")
+          and not any(len(c_.args) > base_init(c_) for c_ in sup), f"base __init__ keywords: {kw}")
         if init is not None:
             fns.append(dict(m.fn_info(f"{cls}.__init__"), obligations=1))
 
